@@ -19,7 +19,55 @@ DAMAGES = ["delete-start", "delete-end", "dup-start", "dup-end", "neutral-start"
 
 def plan(tier, seed):
     n = 8 if tier == "quick" else 120
-    return [{"suffix": s, "i": i, "seed": seed} for s in langs.ALL_SUFFIXES for i in range(n)]
+    jobs = [{"suffix": s, "i": i, "seed": seed} for s in langs.ALL_SUFFIXES for i in range(n)]
+    for s in langs.ALL_SUFFIXES:
+        if any(f.kind == "line" and f.family != "md" for f in langs.LANGS[langs.SUFFIX_LANG[s]]["forms"]):
+            jobs.append({"k": "glued", "suffix": s, "seed": seed})
+    return jobs
+
+
+def glued_job(job, ctx):
+    """`</block><block>`: an end tag and a bare start tag glued together at the very end of a line comment; the block
+    opened by that bare tag is then left unclosed (or closed: control)."""
+    from .. import fb as fbm
+    suffix = job["suffix"]
+    lang = langs.LANGS[langs.SUFFIX_LANG[suffix]]
+    form = [f for f in lang["forms"] if f.kind == "line" and f.family != "md"][0]
+    out = []
+    for variant in ("</block><block>", "</block> <block>", "<block name=\"z\"><block>"):
+        for closed in (True, False):
+            lines = list(lang["prologue"])
+            lines += ["%s <block name=\"a\">" % form.open, lang["code"][0], "%s %s" % (form.open, variant), lang["code"][-1]]
+            lines += ["%s </block>" % form.open]                      # closes the bare block (or `a` when the bare tag is lost)
+            if variant.startswith("<block name"):
+                lines += ["%s </block>" % form.open, "%s </block>" % form.open]     # z and a
+            if not closed:
+                lines = lines[:-1]
+            lines += list(lang["epilogue"])
+            data = ("\n".join(lines) + "\n").encode()
+            name = langs.file_name_for(suffix, "glued")
+            for mode in ("scan", "list"):
+                root = run.make_repo({name: data})
+                try:
+                    res = run.run(ctx.bin("rel"), ["list"] if mode == "list" else [], root, stdin=None, env=dict(TERM))
+                finally:
+                    run.rm(root)
+                key = h([suffix, variant, closed, mode])
+                sets = {"suffix": [suffix], "damage_mode": ["glued-%s/%s" % ("closed" if closed else "unclosed", mode)]}
+                if closed:
+                    ok = res.cls == "ok"
+                    why = "a balanced file with glued tags was rejected: %s" % res.err_text()[:200]
+                    sig = "C12/glued-control-rejected"
+                else:
+                    ok = res.rc != 0 and not bad_outcome(res) and name in res.err_text()
+                    why = "exit %s for a file whose glued bare start tag is never closed: %s" % (res.rc, res.err_text()[:200])
+                    sig = "C12/silent-success/glued-bare-start/%s" % mode
+                if ok:
+                    out.append(Case(HELD, key=key, nontrivial=True, sets=sets, counters={"glued_runs": 1}))
+                else:
+                    out.append(Case(VIOLATED, key=key, nontrivial=True, sig=sig, summary=why, sets=sets,
+                                    witness={"files": {name: data.decode()}, "mode": mode, "observed": res.brief(1000), "job": job}))
+    return out
 
 
 def damage(data, tag, kind):
@@ -44,6 +92,8 @@ def whole_file_diff(name, data):
 
 
 def run_job(job, ctx):
+    if job.get("k") == "glued":
+        return glued_job(job, ctx)
     suffix = job["suffix"]
     lang = langs.SUFFIX_LANG[suffix]
     r = rng("c12", job["seed"], suffix, job["i"])
